@@ -120,6 +120,9 @@ def check_channel(ctx, a, b, ida, idb, msgs, tag):
         # structural correspondence of __init__ on the real shared secret
         ctx.expect_model(f'adnl_chan {hx(X.channel_shared)} {hx(lid)} {hx(pid)}',
                          f'ok {hx(X.enc_key)} {hx(X.dec_key)} {X.client_aes_key_id.hex()} {X.server_aes_key_id.hex()}', f'channel init {od}')
+        srv = Server('', 0, pb if X is A else pa)
+        if call(srv.get_key_id) != sha(MAGIC_KEY + (pb if X is A else pa)):
+            ctx.fail('keyid-server:', 'Server.get_key_id != sha256(c6b41348 || pub)', inp0)
         if X.channel_shared != RX.shared or X.channel_shared != Y.channel_shared:
             ctx.fail(f'shared:{od}', 'the two ends (or the libsodium reference) derive different shared secrets', inp0,
                      {'lib': X.channel_shared.hex(), 'peer': Y.channel_shared.hex(), 'ref': RX.shared.hex()})
@@ -275,7 +278,16 @@ def check_sign(ctx, seed, m, alt_seed):
 
 
 def sign_cases(ctx):
+    from pytoniq_core.crypto.ciphers import Client
     rng = ctx.rng
+    fresh = [call(Client.generate_ed25519_private_key) for _ in range(8)]
+    ctx.case(('fresh-keys',), nontrivial=True, sample=None)
+    if any(k is None or len(k) != 32 for k in fresh) or len(set(fresh)) != len(fresh):
+        ctx.fail('fresh-key:', 'generate_ed25519_private_key did not return distinct 32-byte seeds', {'kind': 'fresh-keys'},
+                 [k.hex() if k else None for k in fresh])
+    else:
+        for k in fresh[:2]:          # a fresh seed works as a client key: sign + verify, channel to itself
+            check_sign(ctx, k, b'fresh key', rng.randbytes(32))
     for i in range(ctx.n(60, 600)):
         n = rng.choice([0, 1, 2, 31, 32, 33, 64, 100, 1000, rng.randrange(0, 2049)])
         check_sign(ctx, rng.randbytes(32), rng.randbytes(n), rng.randbytes(32))
